@@ -15,8 +15,9 @@ Ends == {"release", "abort", "leave", "release+abort", "abort+abort", "abort+rel
 Double == {"release+abort", "abort+abort", "abort+release", "release+release"}
 \* notify_abort: a notification handler (EVT_ACSE_RECV) calls abort() when the peer's A-RELEASE-RQ arrives (abort during release)
 AccKinds == {"normal", "handler_abort", "handler_release", "slow", "notify_abort"}
-\* how the acceptor rejects: not at all, called AE title not recognised (source 1), local limit exceeded (source 3)
-Rejects == {"no", "aet", "limit"}
+\* how the request fails: not at all, called AE title not recognised (rejection, source 1), local limit exceeded (rejection,
+\* source 3), or accepted without a single accepted presentation context (the requestor then aborts)
+Rejects == {"no", "aet", "limit", "nocx"}
 Sides == {"none", "acc_abort", "acc_release", "req_abort", "req_release"}
 Moments == {"early", "mid", "late"}
 VARIABLE s
